@@ -466,8 +466,8 @@ int _GD_ReadLinterpFile(DIRFILE *restrict D, gd_entry_t *restrict E)
   E->e->u.linterp.lut = ptr;
   E->e->u.linterp.table_len = i;
 
-  /* sort the LUT */
-  if (dir == -2)
+  /* sort the LUT, unless it's already in ascending order */
+  if (dir != 1)
     qsort(E->e->u.linterp.lut, i, sizeof(struct gd_lut_), lutcmp);
 
   fclose(fp);
